@@ -82,11 +82,39 @@ func checkMonotoneKnob(c *Ctx, rule string) {
 		switch {
 		case strings.Contains(name, "partitionstyle/deployment."):
 			need = func(f Fact) bool {
-				if !(f.Op == "==" && f.R.Op == "const" && f.R.Name == "false" && f.L.Op == "call" && NameMatch(f.L.Name, "control.IsCurrentMoreThanOrEqualToDesired") && f.L.Call != nil) {
+				if !(f.Op == "==" && f.R.Op == "const" && f.R.Name == "false" && f.L.Op == "call" && NameMatch(f.L.Name, "control.IsCurrentMoreThanOrEqualToDesired")) {
 					return false
 				}
-				args := f.L.Call.Call.Args
-				return len(args) == 2 && SliceHas(args[0], MCall("util.GetDeploymentStrategy")) && SliceHas(args[0], func(t *Term) bool { return t.Op == "field" && t.Name == "Partition" }) && ctxField("DesiredPartition")(TermOf(args[1]))
+				var args []ssa.Value
+				if f.L.Call != nil {
+					args = f.L.Call.Call.Args
+				}
+				if len(args) == 2 && SliceHas(args[0], MCall("util.GetDeploymentStrategy")) && SliceHas(args[0], func(t *Term) bool { return t.Op == "field" && t.Name == "Partition" }) && ctxField("DesiredPartition")(TermOf(args[1])) {
+					return true
+				}
+				// the same on the terms of the fact (the comparison may sit in a predicate helper: the
+				// engine then hands over the fact with the helper's parameters replaced by the arguments)
+				if len(f.L.Args) == 2 {
+					a0, a1 := f.L.Args[0], f.L.Args[1]
+					decoded := a0.Any(MCall("util.GetDeploymentStrategy"))
+					if !decoded {
+						// an address-taken local that holds the decoded strategy
+						a0.Any(func(x *Term) bool {
+							if al, ok := x.V.(*ssa.Alloc); ok {
+								for _, st := range AllocStoresOf(al) {
+									if st.Addr == ssa.Value(al) {
+										if call, isCall := Forwarded(st.Val).(*ssa.Call); isCall && strings.Contains(CalleeName(&call.Call), "GetDeploymentStrategy") {
+											decoded = true
+										}
+									}
+								}
+							}
+							return false
+						})
+					}
+					return decoded && (MField("Partition")(a0) || a0.Any(MField("Partition"))) && ctxField("DesiredPartition")(a1)
+				}
+				return false
 			}
 			needDesc = "IsCurrentMoreThanOrEqualToDesired(decoded strategy partition, ctx.DesiredPartition) == false"
 		case strings.Contains(name, "partitionstyle/"):
